@@ -180,17 +180,48 @@ fn resolve_external_module(
 ) -> Vec<(Statement, Location)> {
     let module_filename = format!("{}.mmm", name.as_str());
     let (imported, mut new_errs) =
-        resolve_include(file_path.to_str().unwrap(), &module_filename, span);
+        resolve_include(file_path.to_str().unwrap(), &module_filename, span.clone());
     errs.append(&mut new_errs);
+    if reject_include_cycle(&imported.resolved_path, file_path, span, errs, module_info) {
+        return Vec::new();
+    }
 
     // Process imported program with the module prefix
-    stmts_from_program_with_prefix(
+    module_info.include_chain.push(file_path.to_path_buf());
+    let res = stmts_from_program_with_prefix(
         imported.program.statements,
         imported.resolved_path,
         errs,
         module_prefix,
         module_info,
-    )
+    );
+    module_info.include_chain.pop();
+    res
+}
+
+/// A file that (transitively) includes one of the files that are being expanded would be
+/// expanded for ever: report it instead. Returns true if `resolved_path` closes a cycle.
+fn reject_include_cycle(
+    resolved_path: &Path,
+    file_path: &Path,
+    span: Span,
+    errs: &mut Vec<Box<dyn ReportableError>>,
+    module_info: &ModuleInfo,
+) -> bool {
+    let cyclic = module_info
+        .include_chain
+        .iter()
+        .any(|p| p.as_path() == resolved_path);
+    if cyclic {
+        errs.push(Box::new(SimpleError {
+            message: format!(
+                "File {} includes itself through the files it includes",
+                resolved_path.display()
+            ),
+            span: Location::new(span, file_path.to_path_buf()),
+        }));
+    }
+    cyclic
 }
 
 /// Map from mangled symbol name to whether it's public.
@@ -223,6 +254,8 @@ pub struct ModuleInfo {
     pub type_aliases: TypeAliasMap,
     /// Loaded external modules to avoid duplicate loading when resolving `use` statements
     pub loaded_external_modules: HashSet<Symbol>,
+    /// Files whose `include(..)` / `mod name;` expansion is in progress (cycle detection)
+    pub include_chain: Vec<PathBuf>,
 }
 
 impl ModuleInfo {
@@ -359,9 +392,25 @@ fn stmts_from_program_with_prefix(
                 let (imported, mut new_errs) =
                     resolve_include(file_path.to_str().unwrap(), filename.as_str(), span.clone());
                 errs.append(&mut new_errs);
-                let res =
-                    stmts_from_program(imported.program, imported.resolved_path, errs, module_info);
-                Some(res)
+                if reject_include_cycle(
+                    &imported.resolved_path,
+                    &file_path,
+                    span.clone(),
+                    errs,
+                    module_info,
+                ) {
+                    Some(Vec::new())
+                } else {
+                    module_info.include_chain.push(file_path.clone());
+                    let res = stmts_from_program(
+                        imported.program,
+                        imported.resolved_path,
+                        errs,
+                        module_info,
+                    );
+                    module_info.include_chain.pop();
+                    Some(res)
+                }
             }
             ProgramStatement::StageDeclaration { stage } => {
                 current_stage = stage.clone();
